@@ -31,15 +31,17 @@ class IntsToStrings(Harness):
     functions = ("bionumpy.io.strops.ints_to_strings", "_build_power_array", "change_encoding")
     assumptions = ("np.log10(int).astype(int) modelled as the Int step function with breakpoints measured on the real "
                    "NumPy composite; tied to IEEE conversion by the QF_BVFP conversion lemma (prelude)",)
-    bounds = {"quick": "batches of 1 number over the whole int64 range; batches of 2 with ranges [-10^3,10^3] x int64 and "
-                       "int64 x [-10^3,10^3]",
+    bounds = {"quick": "batches of 1 number over the whole int64 range; batches of 2 with ranges [-10,10] x int64 and "
+                       "int64 x [-10,10]",
               "thorough": "adds batches of 2 over int64 x int64 and batches of 3 (one full-range row, others |n|<=10^4)"}
 
     def skeletons(self, tier, seed):
         full = [I64_MIN, I64_MAX]
         small = [-1000, 1000]
-        sk = [dict(ranges=[full]), dict(ranges=[small, full]), dict(ranges=[full, small])]
+        tiny = [-10, 10]
+        sk = [dict(ranges=[full]), dict(ranges=[tiny, full]), dict(ranges=[full, tiny])]
         if tier == "thorough":
+            sk += [dict(ranges=[small, full]), dict(ranges=[full, small])]
             sk += [dict(ranges=[full, full])]
             sk += [dict(ranges=[[-10 ** 4, 10 ** 4], full, [-10 ** 4, 10 ** 4]])]
         return sk
